@@ -50,4 +50,11 @@ theorem old_rescans_inserted_values :
     (resolveOld [refOut, ref1A] "stage0.A/out.txt:output".toList).out = "hello /i/stages/stage1/A".toList ∧
     (resolve [refOut, ref1A] "stage0.A/out.txt:output".toList).out = "hello A:ref".toList := by decide
 
+/-- the value of an `:output` reference is the file's text minus its final newlines; stripping all surrounding
+white space instead (`str.strip()`) would lose blanks and tabs that belong to the contents -/
+theorem strip_is_not_the_output_value :
+    outputValue "  ATOM  1 \t\n\n".toList = "  ATOM  1 \t".toList ∧
+    St4sd.Str.strip "  ATOM  1 \t\n\n".toList = "ATOM  1".toList ∧
+    outputValue " a\r\n".toList = " a\r".toList ∧ loopInstanceValue " a\r\n".toList = " a".toList := by decide
+
 end St4sd.C10.Witness
